@@ -86,8 +86,7 @@ def gen_case(rng, tier, index):
     if abi == "mips32-elf":
         clob = [r for r in clob if r not in ("zero", "sp")]
     free = [r for r in pool if r not in clob]
-    reads = rng.sample(free, rng.choice([0, 0, 1, 2]) if free else 0) \
-        if free else []
+    reads = rng.sample(free, min(len(free), rng.choice([0, 0, 1, 2])))
     avail = len(free) - len(reads)
     scratch = rng.choice([0, 0, 1, 2, 3, avail, avail + 1])
     return {"abi": abi, "clobbers": clob, "flags": rng.random() < 0.5,
